@@ -1,5 +1,6 @@
 import BindgenModel.Model.Util
 import BindgenModel.Model.BitfieldUnit
+import BindgenModel.Model.BitfieldAlloc
 /-! Line protocol for the bit-field unit model.
 
 `bf <entry> <mode> <off> <w> <store-hex> [<val-hex>]` with
@@ -32,6 +33,20 @@ def handle (toks : List String) : String :=
           | none => "bad-op"
         | _ => "bad-op"
     | _, _, _ => "bad-op"
+  | _ => "bad-op"
+
+/-- `bfalloc <packed:0|1> <w:off:tsize:talign,…>` → `unit=<bytes> offs=<…> overridden=<0|1>` -/
+def handleAlloc (toks : List String) : String :=
+  open BindgenModel.BitfieldAlloc in
+  match toks with
+  | [packed, fields] =>
+    let bfs := (fields.splitOn ",").filterMap fun f =>
+      match (f.splitOn ":").map String.toNat? with
+      | [some w, some o, some ts, some ta] => some ({ width := w, off := o, tsize := ts, talign := ta } : RawBf)
+      | _ => none
+    let st := allocRun (packed == "1") bfs
+    let offs := ",".intercalate (st.offs.map toString)
+    s!"unit={unitBytes st} offs={offs} overridden={if bfs.any (adjusts (packed == "1")) then 1 else 0}"
   | _ => "bad-op"
 
 end BindgenModel.Driver.C03
